@@ -16,150 +16,7 @@
 #include <stdlib.h>
 #include <string.h>
 
-/* ---- low-level catalogue (shared with C18) */
-typedef struct {
-	const char *name; int nargs; uint8_t bounds[12][4]; int nbounds[12]; int payload_max; int takes_node;
-	void (*call)(t_bidib_node_address node, const uint8_t *a, int plen, const uint8_t *payload);
-	int (*ref)(const uint8_t *a, int plen, const uint8_t *payload, uint8_t *type, uint8_t *data);
-} c18_fn_t;
-#include "c18_table.inc"
-#define N_LL ((int) (sizeof c18_fns / sizeof c18_fns[0]))
-
-/* ---- high-level catalogue */
-static const char *IDS[] = {"master", "oc1", "lc1", "booster2", "pointd", "point1", "signald", "signal1", "led1", "seg1", "seg4", "rev1", "train1", "train2", "nosuch", NULL};
-#define N_IDS 16
-static const char *ASPECTS[] = {"normal", "reverse", "go", "red", "on", "undefined", NULL};
-#define N_ASP 7
-#define FREE_ID_LIST(q) bidib_free_id_list_query(q)
-typedef struct { const char *name; int nvariants; void (*fn)(int v); } hl_entry_t;
-#define E_ID1(fnname, freeexpr) static void e_##fnname(int v) { const char *id = IDS[v]; __auto_type q = fnname(id); (void) q; freeexpr; }
-#define E_ID0(fnname, freeexpr) static void e_##fnname(int v) { (void) v; __auto_type q = fnname(); (void) q; freeexpr; }
-E_ID0(bidib_get_state, bidib_free_track_state(q))
-E_ID1(bidib_get_point_state, if (q.known) bidib_free_unified_accessory_state_query(q))
-E_ID1(bidib_get_signal_state, if (q.known) bidib_free_unified_accessory_state_query(q))
-E_ID1(bidib_get_peripheral_state, if (q.available) bidib_free_peripheral_state_query(q))   /* freeing the result of an unknown id is C17's subject */
-E_ID1(bidib_get_segment_state, if (q.known) bidib_free_segment_state_query(q))
-E_ID1(bidib_get_reverser_state, if (q.available) bidib_free_reverser_state_query(q))
-E_ID1(bidib_get_uniqueid, (void) 0)
-E_ID1(bidib_get_nodeaddr, (void) 0)
-E_ID0(bidib_get_boards, FREE_ID_LIST(q))
-E_ID0(bidib_get_boards_connected, FREE_ID_LIST(q))
-E_ID1(bidib_get_board_connected, (void) 0)
-E_ID1(bidib_get_board_features, bidib_free_board_features_query(q))
-E_ID1(bidib_get_board_points, FREE_ID_LIST(q))
-E_ID1(bidib_get_board_signals, FREE_ID_LIST(q))
-E_ID1(bidib_get_board_peripherals, FREE_ID_LIST(q))
-E_ID1(bidib_get_board_segments, FREE_ID_LIST(q))
-E_ID1(bidib_get_board_reversers, FREE_ID_LIST(q))
-E_ID0(bidib_get_connected_points, FREE_ID_LIST(q))
-E_ID0(bidib_get_connected_signals, FREE_ID_LIST(q))
-E_ID0(bidib_get_connected_peripherals, FREE_ID_LIST(q))
-E_ID0(bidib_get_connected_segments, FREE_ID_LIST(q))
-E_ID0(bidib_get_connected_reversers, FREE_ID_LIST(q))
-E_ID0(bidib_get_connected_boosters, FREE_ID_LIST(q))
-E_ID0(bidib_get_boosters, FREE_ID_LIST(q))
-E_ID0(bidib_get_track_outputs, FREE_ID_LIST(q))
-E_ID0(bidib_get_connected_track_outputs, FREE_ID_LIST(q))
-E_ID1(bidib_get_booster_state, (void) 0)
-E_ID1(bidib_get_track_output_state, (void) 0)
-E_ID0(bidib_get_trains, FREE_ID_LIST(q))
-E_ID0(bidib_get_trains_on_track, FREE_ID_LIST(q))
-E_ID1(bidib_get_train_peripherals, FREE_ID_LIST(q))
-E_ID1(bidib_get_train_dcc_addr, (void) 0)
-E_ID1(bidib_get_train_state, if (q.known) bidib_free_train_state_query(q))
-E_ID1(bidib_get_train_position, bidib_free_train_position_query(q))
-E_ID1(bidib_get_train_speed_step, (void) 0)
-E_ID1(bidib_get_train_speed_kmh, (void) 0)
-E_ID1(bidib_get_train_on_track, (void) 0)
-E_ID1(bidib_get_point_aspects, FREE_ID_LIST(q))
-E_ID1(bidib_get_signal_aspects, FREE_ID_LIST(q))
-E_ID1(bidib_get_peripheral_aspects, FREE_ID_LIST(q))
-static void e_get_by_value(int v) {
-	t_bidib_unique_id_mod u = {0x45, 0, 0x0D, 0x8D, 0, 0xC1, (uint8_t) (v ? 0x00 : 0xF1)}; t_bidib_node_address a = {(uint8_t) (v ? 9 : 1), 0, 0}; t_bidib_dcc_address d = {0x23, (uint8_t) (v ? 0x7F : 0x01), 0};
-	bidib_get_uniqueid_by_nodeaddr(a); bidib_get_nodeaddr_by_uniqueid(u); t_bidib_id_query q = bidib_get_board_id(u); bidib_free_id_query(q); q = bidib_get_train_id(d); bidib_free_id_query(q);
-}
-static void e_train_periph_state(int v) { bidib_get_train_peripheral_state(IDS[v % N_IDS], v < N_IDS ? "head_light" : v < 2 * N_IDS ? "nosuch" : NULL); }
-/* setters: v encodes (id index, second argument class) */
-static void e_switch_point(int v) { bidib_switch_point(IDS[v % N_IDS], ASPECTS[v / N_IDS]); }
-static void e_set_signal(int v) { bidib_set_signal(IDS[v % N_IDS], ASPECTS[v / N_IDS]); }
-static void e_set_peripheral(int v) { bidib_set_peripheral(IDS[v % N_IDS], ASPECTS[v / N_IDS]); }
-static const int SPEEDS[5] = {0, 50, -126, 127, -1000};
-static void e_set_train_speed(int v) { bidib_set_train_speed(IDS[v % N_IDS], SPEEDS[(v / N_IDS) % 5], IDS[(v / N_IDS / 5) % N_IDS]); }
-static void e_set_cal_speed(int v) { bidib_set_calibrated_train_speed(IDS[v % N_IDS], (v / N_IDS) % 3 == 0 ? 0 : (v / N_IDS) % 3 == 1 ? 9 : 10, IDS[(v / N_IDS / 3) % N_IDS]); }
-static void e_estop(int v) { bidib_emergency_stop_train(IDS[v % N_IDS], IDS[(v / N_IDS) % N_IDS]); }
-static void e_train_periph(int v) { static const char *P[4] = {"head_light", "horn", "nosuch", NULL}; bidib_set_train_peripheral(IDS[v % N_IDS], P[(v / N_IDS) % 4], (uint8_t) ((v / N_IDS / 4) % 3), IDS[(v / N_IDS / 12) % N_IDS]); }
-static void e_booster(int v) { bidib_set_booster_power_state(IDS[v % N_IDS], v / N_IDS); }
-static void e_track_output(int v) { static const int S[4] = {0, 3, 5, 0xFF}; bidib_set_track_output_state(IDS[v % N_IDS], (t_bidib_cs_state) S[v / N_IDS]); }
-static void e_track_output_all(int v) { bidib_set_track_output_state_all(v ? BIDIB_CS_GO : BIDIB_CS_SOFTSTOP); }
-static void e_request_reverser(int v) { bidib_request_reverser_state(IDS[v % N_IDS], IDS[v / N_IDS]); }
-static void e_ping(int v) { bidib_ping(IDS[v], 7); }
-static void e_identify(int v) { bidib_identify(IDS[v % N_IDS], (uint8_t) (v / N_IDS)); }
-static void e_pversion(int v) { bidib_get_protocol_version(IDS[v]); }
-static void e_swversion(int v) { bidib_get_software_version(IDS[v]); }
-static void e_flush(int v) { (void) v; bidib_flush(); }
-static void e_read_message(int v) { (void) v; free(bidib_read_message()); }
-static void e_read_error(int v) { (void) v; free(bidib_read_error_message()); }
-static void e_sys_reset(int v) { (void) v; bidib_send_sys_reset(0); }
-#define H(fn, n) { #fn, n, e_##fn }
-static const hl_entry_t HL[] = {
-	H(bidib_get_state, 1), H(bidib_get_point_state, N_IDS), H(bidib_get_signal_state, N_IDS), H(bidib_get_peripheral_state, N_IDS), H(bidib_get_segment_state, N_IDS), H(bidib_get_reverser_state, N_IDS),
-	H(bidib_get_uniqueid, N_IDS), H(bidib_get_nodeaddr, N_IDS), H(bidib_get_boards, 1), H(bidib_get_boards_connected, 1), H(bidib_get_board_connected, N_IDS), H(bidib_get_board_features, N_IDS),
-	H(bidib_get_board_points, N_IDS), H(bidib_get_board_signals, N_IDS), H(bidib_get_board_peripherals, N_IDS), H(bidib_get_board_segments, N_IDS), H(bidib_get_board_reversers, N_IDS),
-	H(bidib_get_connected_points, 1), H(bidib_get_connected_signals, 1), H(bidib_get_connected_peripherals, 1), H(bidib_get_connected_segments, 1), H(bidib_get_connected_reversers, 1),
-	H(bidib_get_connected_boosters, 1), H(bidib_get_boosters, 1), H(bidib_get_track_outputs, 1), H(bidib_get_connected_track_outputs, 1), H(bidib_get_booster_state, N_IDS), H(bidib_get_track_output_state, N_IDS),
-	H(bidib_get_trains, 1), H(bidib_get_trains_on_track, 1), H(bidib_get_train_peripherals, N_IDS), H(bidib_get_train_dcc_addr, N_IDS), H(bidib_get_train_state, N_IDS), H(bidib_get_train_position, N_IDS),
-	H(bidib_get_train_speed_step, N_IDS), H(bidib_get_train_speed_kmh, N_IDS), H(bidib_get_train_on_track, N_IDS), H(bidib_get_point_aspects, N_IDS), H(bidib_get_signal_aspects, N_IDS), H(bidib_get_peripheral_aspects, N_IDS),
-	{ "getters-by-value(uniqueid/nodeaddr/dcc)", 2, e_get_by_value }, { "bidib_get_train_peripheral_state", 3 * N_IDS, e_train_periph_state },
-	{ "bidib_switch_point", N_IDS * N_ASP, e_switch_point }, { "bidib_set_signal", N_IDS * N_ASP, e_set_signal }, { "bidib_set_peripheral", N_IDS * N_ASP, e_set_peripheral },
-	{ "bidib_set_train_speed", N_IDS * 5 * N_IDS, e_set_train_speed }, { "bidib_set_calibrated_train_speed", N_IDS * 3 * N_IDS, e_set_cal_speed }, { "bidib_emergency_stop_train", N_IDS * N_IDS, e_estop },
-	{ "bidib_set_train_peripheral", N_IDS * 12 * N_IDS, e_train_periph }, { "bidib_set_booster_power_state", N_IDS * 2, e_booster }, { "bidib_set_track_output_state", N_IDS * 4, e_track_output },
-	{ "bidib_set_track_output_state_all", 2, e_track_output_all }, { "bidib_request_reverser_state", N_IDS * N_IDS, e_request_reverser },
-	{ "bidib_ping", N_IDS, e_ping }, { "bidib_identify", N_IDS * 3, e_identify }, { "bidib_get_protocol_version", N_IDS, e_pversion }, { "bidib_get_software_version", N_IDS, e_swversion },
-	{ "bidib_flush", 1, e_flush }, { "bidib_read_message", 1, e_read_message }, { "bidib_read_error_message", 1, e_read_error }, { "bidib_send_sys_reset", 1, e_sys_reset },
-};
-#define N_HL ((int) (sizeof HL / sizeof HL[0]))
-/* catalogue entry index space: [0, N_HL) high-level, [N_HL, N_HL+N_LL) low-level, [N_HL+N_LL, +128*3) uplink type x sender class */
-#define N_ENTRIES (N_HL + N_LL + 128 * 3)
-static char entry_names[N_ENTRIES][72];
-static const char *entry_name(int e) {
-	if (!entry_names[e][0]) {
-		if (e < N_HL) snprintf(entry_names[e], 72, "%s", HL[e].name); else if (e < N_HL + N_LL) snprintf(entry_names[e], 72, "%s", c18_fns[e - N_HL].name);
-		else { int k = e - N_HL - N_LL; static const char *sn[3] = {"master", "oc1", "unknown-node"}; snprintf(entry_names[e], 72, "receiver:type-%02x-from-%s", 0x80 + k % 128, sn[k / 128]); }
-	}
-	return entry_names[e];
-}
-static cm_model_t M;
-static void uplink_payload(uint8_t type, uint8_t *d, int *dl) {
-	memset(d, 0, 16); *dl = 9;
-	switch (type) {
-	case MSG_BM_MULTIPLE: d[0] = 0; d[1] = 8; d[2] = 0x03; *dl = 3; break;
-	case MSG_BM_ADDRESS: d[0] = 0; d[1] = 0x23; d[2] = 0x01; *dl = 3; break;
-	case MSG_VENDOR: d[0] = 5; memcpy(d + 1, "30051", 5); d[6] = 1; d[7] = '3'; *dl = 8; break;
-	case MSG_BOOST_DIAGNOSTIC: d[0] = 0; d[1] = 10; d[2] = 1; d[3] = 120; *dl = 4; break;
-	case MSG_NODE_NEW: case MSG_NODE_LOST: d[0] = 2; d[1] = 5; memcpy(d + 2, (uint8_t[]) {0x05, 0, 0x0D, 0x6B, 0, 9, 9}, 7); break;
-	case MSG_ACCESSORY_STATE: case MSG_ACCESSORY_NOTIFY: d[0] = 2; d[1] = 1; d[2] = 2; d[3] = 0; d[4] = 0; *dl = 5; break;
-	case MSG_LC_STAT: case MSG_LC_WAIT: d[0] = 0x23; d[1] = 0x01; d[2] = 1; *dl = 3; break;
-	case MSG_CS_DRIVE_ACK: case MSG_CS_ACCESSORY_ACK: d[0] = 0x23; d[1] = 0x01; d[2] = 1; *dl = 3; break;
-	case MSG_CS_DRIVE_MANUAL: d[0] = 0x23; d[1] = 0x01; d[2] = 3; d[3] = 1; d[4] = 0x85; break;
-	case MSG_STALL: d[0] = 0; *dl = 1; break;
-	default: break;
-	}
-}
-static void run_entry(int e, int v) {
-	if (e < N_HL) HL[e].fn(v);
-	else if (e < N_HL + N_LL) {
-		const c18_fn_t *f = &c18_fns[e - N_HL]; uint8_t a[12]; uint8_t payload[8] = {0x41, 0x42, 0x43, 0x44, 0x45, 0x46, 0x47, 0xFF};
-		for (int k = 0; k < f->nargs; k++) a[k] = f->nbounds[k] ? f->bounds[k][v % f->nbounds[k]] : 0;
-		t_bidib_node_address n = {(uint8_t) (v % 3 == 2 ? 9 : v % 3), 0, 0};
-		f->call(n, a, f->payload_max >= 0 ? (f->payload_max < 8 ? f->payload_max : 8) : 0, payload);
-	} else {
-		int k = e - N_HL - N_LL; uint8_t type = (uint8_t) (0x80 + k % 128); int cls = k / 128; uint8_t d[16]; int dl; uplink_payload(type, d, &dl);
-		if (cls == 2) { static const uint8_t ua[4] = {9, 0, 0, 0}; sb_send_from(ua, 0, type, d, dl); } else sb_send(cls, type, d, dl);
-		vs_point(); hx_quiesce();
-	}
-}
-static int entry_variants(int e) { if (e < N_HL) return HL[e].nvariants; if (e < N_HL + N_LL) return 4; return 1; }
-
+#include "api_cat.inc"
 static void emit_graph(void) {
 	int n = vs_nlocks();
 	for (int a = 0; a < n; a++) for (int b = 0; b < n; b++) if (vs_edge(a, b)) res_printf("G %s %s %d %s\n", vs_lock_name(a), vs_lock_name(b), vs_edge(a, b), vs_edge_label(a, b)[0] ? vs_edge_label(a, b) : "start-up");
